@@ -663,6 +663,9 @@ func init() {
 			return in.atoi(a[0].(strV), 64, true)
 		},
 		"strconv.ParseInt": func(in *Interp, _ *ssa.Function, a []Value, _ *frame) Value {
+			if r, ok := in.parseAtom(a[0].(strV), in.cint(a[2]), true, "ParseInt"); ok && (in.cint(a[1]) == 10 || in.cint(a[1]) == 0) {
+				return r
+			}
 			s := mustStr(a[0], "ParseInt")
 			n, err := strconv.ParseInt(s, in.cint(a[1]), in.cint(a[2]))
 			if err != nil {
@@ -671,6 +674,9 @@ func init() {
 			return tupleV{bv(64, uint64(n)), iface{}}
 		},
 		"strconv.ParseUint": func(in *Interp, _ *ssa.Function, a []Value, _ *frame) Value {
+			if r, ok := in.parseAtom(a[0].(strV), in.cint(a[2]), false, "ParseUint"); ok && (in.cint(a[1]) == 10 || in.cint(a[1]) == 0) {
+				return r
+			}
 			s := mustStr(a[0], "ParseUint")
 			n, err := strconv.ParseUint(s, in.cint(a[1]), in.cint(a[2]))
 			if err != nil {
@@ -1086,27 +1092,63 @@ func (in *Interp) itoa(t *Term, signed bool) Value {
 		}
 		return mkStr(strconv.FormatUint(t.c, 10))
 	}
-	t = resize(t, 64, signed)
-	if signed && in.e.branch(mk("bvslt", 0, t, bv(64, 0))) {
-		unsupported("itoa of negative symbolic integer")
+	return strV{decAtom(resize(t, 64, signed), signed)}
+}
+
+// parseAtom parses a string that is one formatted symbolic integer.
+func (in *Interp) parseAtom(s strV, bits int, wantSigned bool, fname string) (Value, bool) {
+	if len(s) != 1 || s[0].op != "dec" {
+		if hasAtom(s) {
+			unsupported("%s of a string holding a formatted symbolic integer among other text", fname)
+		}
+		return nil, false
 	}
-	for d, lim := 1, uint64(10); d <= 4; d, lim = d+1, lim*10 {
-		if in.e.branch(mk("bvult", 0, t, bv(64, lim))) {
-			r := make(strV, d)
-			x := t
-			for i := d - 1; i >= 0; i-- {
-				dig := mk("bvurem", 64, x, bv(64, 10))
-				r[i] = mk("bvadd", 8, resize(dig, 8, false), bv(8, '0'))
-				x = mk("bvudiv", 64, x, bv(64, 10))
+	a := s[0]
+	t := a.args[0]
+	rangeErr := func() iface {
+		return in.errorIface("strconv", "NumError", mkStr(fname), s, in.newError(mkStr("value out of range")))
+	}
+	synErr := func() iface {
+		return in.errorIface("strconv", "NumError", mkStr(fname), s, in.newError(mkStr("invalid syntax")))
+	}
+	if bits == 0 {
+		bits = 64
+	}
+	if wantSigned {
+		if a.p1 == 0 { // unsigned rendering parsed as signed: must fit
+			lim := bv(64, uint64(1)<<uint(bits-1))
+			if !in.e.branch(mk("bvult", 0, t, lim)) {
+				return tupleV{bv(64, uint64(1)<<uint(bits-1)-1), rangeErr()}, true
 			}
-			return r
+			return tupleV{t, iface{}}, true
+		}
+		if bits < 64 {
+			lo := bv(64, uint64(-(int64(1) << uint(bits-1))))
+			hi := bv(64, uint64(int64(1)<<uint(bits-1)-1))
+			if !in.e.branch(mk("and", 0, mk("bvsle", 0, lo, t), mk("bvsle", 0, t, hi))) {
+				return tupleV{t, rangeErr()}, true
+			}
+		}
+		return tupleV{t, iface{}}, true
+	}
+	// unsigned parse
+	if a.p1 == 1 {
+		if in.e.branch(mk("bvslt", 0, t, bv(64, 0))) {
+			return tupleV{bv(64, 0), synErr()}, true // leading '-'
 		}
 	}
-	unsupported("itoa of symbolic integer >= 10000")
-	return nil
+	if bits < 64 {
+		if !in.e.branch(mk("bvule", 0, t, bv(64, uint64(1)<<uint(bits)-1))) {
+			return tupleV{bv(64, uint64(1)<<uint(bits)-1), rangeErr()}, true
+		}
+	}
+	return tupleV{t, iface{}}, true
 }
 
 func (in *Interp) atoi(s strV, bits int, signed bool) Value {
+	if r, ok := in.parseAtom(s, bits, signed, "Atoi"); ok {
+		return r
+	}
 	numErr := func() iface {
 		return in.errorIface("strconv", "NumError", mkStr("Atoi"), s, in.newError(mkStr("invalid syntax")))
 	}
